@@ -11,7 +11,7 @@
 
 struct PCase { Mat X; int scaling, npc, nproc, transform; double rho_gen; };
 struct POut { Mat scores, loadings, E, recon, pscores, resid; std::vector<double> varexp, avg, scale; };
-struct PCall { const Mat *X; int scaling, npc; POut *o; bool extras; };
+struct PCall { const Mat *X; int scaling, npc; POut *o; bool extras; bool reuse = false; };
 
 static void call_pca(void *a_) {
   PCall &a = *(PCall *)a_;
@@ -20,13 +20,19 @@ static void call_pca(void *a_) {
   POut &o = *a.o;
   o.scores = from_matrix(m->scores); o.loadings = from_matrix(m->loadings); o.varexp = from_dvector(m->varexp); o.avg = from_dvector(m->colaverage); o.scale = from_dvector(m->colscaling);
   if (a.extras) {
+    // output arguments are either fresh or (reuse != 0) already hold the result of an earlier call with fewer components: callers do
+    // rebuild with 1..A components into one matrix
+    size_t fewer = a.npc > 1 ? (size_t)a.npc - 1 : 1;
     matrix *rec; initMatrix(&rec);
+    if (a.reuse) PCAIndVarPredictor(m->scores, m->loadings, m->colaverage, m->colscaling, fewer, rec);
     PCAIndVarPredictor(m->scores, m->loadings, m->colaverage, m->colscaling, (size_t)a.npc, rec);
     o.recon = from_matrix(rec); DelMatrix(&rec);
     matrix *ps; initMatrix(&ps);
+    if (a.reuse) PCAScorePredictor(x, m, fewer, ps);
     PCAScorePredictor(x, m, (size_t)a.npc, ps);
     o.pscores = from_matrix(ps); DelMatrix(&ps);
     matrix *rm; initMatrix(&rm);
+    if (a.reuse) GetResidualMatrix(x, m, fewer, rm);
     GetResidualMatrix(x, m, (size_t)a.npc, rm);
     o.resid = from_matrix(rm); DelMatrix(&rm);
   }
@@ -72,7 +78,8 @@ struct HPca : Harness {
     // small and very large units are drawn for them (the other options divide by a column statistic and are scale free)
     if (prop == "C02" && p.geti("scaling") <= 0 && wr.chance(0.5)) p.setd("scale_exp", wr.chance(0.7) ? wr.uniform(-6.0, -2.0) : wr.uniform(3.0, 6.0));
     p.seti("axis_aligned", wr.chance(0.2) ? 1 : 0);
-    if (prop == "C02" && wr.chance(0.12)) p.seti("far_offsets", 1);  // overall magnitude of the singular values
+    if (prop == "C02" && wr.chance(0.12)) p.seti("far_offsets", 1);
+    if (prop == "C01" && wr.chance(0.5)) p.seti("reuse_outputs", 1);  // overall magnitude of the singular values
     p.setu("data.seed", wr.next() >> 4);
     return p;
   }
@@ -130,7 +137,7 @@ struct HPca : Harness {
     sc.nproc = nproc; sc.step_limit = (tier == "quick") ? 100000000ULL : 1000000000ULL;
     sc.garbage_mode = strategy_override == SIM_S0_SEQUENTIAL ? (nproc == 1 ? 2 : 1) : 3;  // zeros / NaN garbage / huge finite garbage in the three fits
     sim_begin_run(&sc);
-    Fit f; PCall c{&X, scaling, npc, &f.out, extras};
+    Fit f; PCall c{&X, scaling, npc, &f.out, extras}; c.reuse = p.geti("reuse_outputs", 0) != 0;
     f.rc = sim_guard(call_pca, &c);
     f.unjoined = sim_unjoined();
     sim_end_run(&f.sr);
@@ -171,6 +178,7 @@ struct HPca : Harness {
     o.sched_sig = B.sr.sched_sig; o.nontrivial = B.sr.max_live >= 2;
     o.counters["nproc." + std::to_string(nproc)]++;
     o.counters["scaling." + std::to_string(scaling)]++;
+    if (p.geti("reuse_outputs", 0)) o.counters["probe.outputs_reused"]++;
     if (p.geti("large", 0)) o.counters["probe.large_operand"]++;
     o.counters[n < pp ? "shape.wide" : n == pp ? "shape.square" : "shape.tall"]++;
     if (nproc > n) o.counters["probe.nproc_gt_rows"]++;
